@@ -30,6 +30,9 @@ var c14FailInt = []struct {
 	{"missing_key", func() gast.Expr { return gast.P("F", "M").At(gast.S("zz")) }},
 	{"missing_fact", func() gast.Expr { return gast.P("Missing", "X") }},
 	{"panicking_method", func() gast.Expr { return &gast.Call{Recv: gast.P("F"), Name: "Boom"} }},
+	{"panicking_method_int_value", func() gast.Expr { return &gast.Call{Recv: gast.P("F"), Name: "BoomI"} }},
+	{"panicking_method_struct_value", func() gast.Expr { return &gast.Call{Recv: gast.P("F"), Name: "BoomV"} }},
+	{"panicking_method_error_value", func() gast.Expr { return &gast.Call{Recv: gast.P("F"), Name: "BoomE"} }},
 	{"two_result_method", func() gast.Expr { return &gast.Call{Recv: gast.P("F"), Name: "Two"} }},
 	{"unknown_method", func() gast.Expr { return &gast.Call{Recv: gast.P("F"), Name: "Nope"} }},
 	{"nil_method_result", func() gast.Expr { return &gast.Member{X: &gast.Call{Recv: gast.P("F"), Name: "NilSub"}, Field: "X"} }},
@@ -105,9 +108,11 @@ func c14FailBool(rt *rapid.T, st *facts.State) (gast.Expr, string, func() gast.E
 
 // c14JoinCond puts the failing expression into the rule's condition (alone, and-ed, or-ed on either side).
 func c14JoinCond(rt *rapid.T, r *gast.Rule, failBool gast.Expr) {
-	switch rapid.IntRange(0, 3).Draw(rt, "fail_join") {
+	switch rapid.IntRange(0, 4).Draw(rt, "fail_join") {
 	case 0:
 		r.When = failBool
+	case 4:
+		r.When = &gast.Bin{Op: gast.OpAnd, L: failBool, R: r.When}
 	case 1:
 		r.When = &gast.Bin{Op: gast.OpAnd, L: r.When, R: failBool}
 	case 2:
@@ -399,7 +404,7 @@ type c14FaultCase struct {
 }
 
 func TestC14(t *testing.T) {
-	col := stats.New("C14", "two generated families. (1) structural failures: rule sets as for C01 with one failing sub-expression injected into a condition (alone, and-ed, or-ed on either side) or as a failing action at a drawn position of an action list - index/key out of range, missing field, missing fact, nil pointer, nil method result, panicking method, two-result method, unknown method, wrong argument kind, kind mismatch, integer modulo zero, failing stores - with both settings of ReturnErrOnFailedRuleEvaluation. (2) fault enumeration: rule sets with counted probes in conditions, right-hand sides and call statements; a fault-free baseline counts the probe invocations n, then the k-th invocation is made to panic or to dereference nil for k = 1..n (all k in the thorough tier, up to 6 per case in quick). Oracle: no panic leaves Execute; a failing condition makes exactly that rule a non-candidate in that cycle while every other rule keeps its fresh status and the run validates as usual (default), or Execute returns an error naming a rule whose condition really fails and nothing follows (flag set); a failing action makes Execute return an error naming the rule, the facts equal the reference replay of the completed actions, and no further event follows; a probe shared with a healthy rule is retried there. Non-trivial: the failure hit a sub-expression shared with another rule, or action j>1, or a cycle > 1. Distinct by rule text + state + fault point.",
+	col := stats.New("C14", "two generated families. (1) structural failures: rule sets as for C01 with one failing sub-expression injected into a condition (alone, and-ed, or-ed on either side) or as a failing action at a drawn position of an action list - index/key out of range, missing field, missing fact, nil pointer, nil method result, methods panicking with a string / an integer / a struct / an error value, two-result method, unknown method, wrong argument kind, kind mismatch, integer modulo zero, failing stores - with both settings of ReturnErrOnFailedRuleEvaluation. (2) fault enumeration: rule sets with counted probes in conditions, right-hand sides and call statements; a fault-free baseline counts the probe invocations n, then the k-th invocation is made to panic or to dereference nil for k = 1..n (all k in the thorough tier, up to 6 per case in quick; the invocation panics with a string, a runtime error, a struct value or an error value). Oracle: no panic leaves Execute; a failing condition makes exactly that rule a non-candidate in that cycle while every other rule keeps its fresh status and the run validates as usual (default), or Execute returns an error naming a rule whose condition really fails and nothing follows (flag set); a failing action makes Execute return an error naming the rule, the facts equal the reference replay of the completed actions, and no further event follows; a probe shared with a healthy rule is retried there. Non-trivial: the failure hit a sub-expression shared with another rule, or action j>1, or a cycle > 1. Distinct by rule text + state + fault point.",
 		"the attribution of an injected probe failure to a rule uses the event order (the evaluation event that follows the failing invocation)")
 	defer col.Flush()
 	ref.StrictKinds = true
@@ -489,7 +494,7 @@ func TestC14(t *testing.T) {
 		}
 		for _, k0 := range ks {
 			k := k0 + 1
-			for _, mode := range []facts.FailMode{facts.FailPanic, facts.FailNilDeref} {
+			for _, mode := range []facts.FailMode{facts.FailPanic, facts.FailNilDeref, facts.FailPanicValue, facts.FailPanicError} {
 				c.ProbeFailAt, c.ProbeMode = k, mode
 				var rep *val.Report
 				var v []string
